@@ -1,8 +1,8 @@
 package props
 
 import (
-	"fmt"
 	"bytes"
+	"fmt"
 	"go/ast"
 	"go/printer"
 	"go/token"
